@@ -132,6 +132,17 @@ impl VUtf8Error {
     pub fn valid_up_to(&self) -> (r: usize) ensures r == self.up_to { self.up_to }
 }
 
+// UTF-8 facts used by the parsers (trusted axioms about the encoding): removing a trailing ASCII byte, and the empty string
+#[verifier::external_body]
+pub proof fn axiom_utf8_drop_ascii(b: Seq<u8>)
+    requires is_utf8(b), b.len() > 0, b.last() < 0x80u8
+    ensures is_utf8(b.drop_last())
+{}
+#[verifier::external_body]
+pub proof fn axiom_utf8_empty()
+    ensures is_utf8(Seq::<u8>::empty())
+{}
+
 // std::str::from_utf8 (the error type is modelled by VUtf8Error: only valid_up_to() is observable)
 #[verifier::external_body]
 pub fn str_from_utf8(bytes: &[u8]) -> (r: Result<&str, VUtf8Error>)
